@@ -39,6 +39,8 @@ type c13Case struct {
 	// groups are consecutive sub-slices of one array (each with capacity up to the end of the array), likewise all
 	// conditional entries and all condition lists. Writing "behind the end" of one slice then changes a neighbour.
 	Spare  bool   `json:"spare,omitempty"`
+	// Warm (concurrent kind): the value the copies are taken from was compiled once before they were taken
+	Warm bool `json:"warm,omitempty"`
 	OpCase uint64 `json:"op_case,omitempty"` // operation names spelled in other letter cases (seed of the spelling)
 	Mutate string `json:"mutate,omitempty"`  // history kind: modify the value in place after the first compilations (default / group-action / drop-group)
 }
@@ -401,6 +403,7 @@ func drawC13Conc(t *rapid.T) c13Case {
 	c := c13Case{Policy: gen.Policy(t, archName, gen.Opts{Profile: prof, MaxInsns: 3000}), K: 2,
 		G: rapid.IntRange(2, 16).Draw(t, "goroutines"), Shared: rapid.Bool().Draw(t, "shared")}
 	c.Others = append(c.Others, gen.Policy(t, drawArch(t), gen.Opts{Profile: gen.Small}))
+	c.Warm = rapid.Bool().Draw(t, "warm")
 	return c
 }
 
@@ -414,6 +417,9 @@ func checkC13Concurrent(raw json.RawMessage) (ev.Result, error) {
 	want, werr, pan := assembleAny(c.Policy.ToSeccomp())
 	if pan != nil {
 		return ev.Result{}, fmt.Errorf("Assemble panicked: %v", pan)
+	}
+	if c.Warm {
+		assembleAny(base)
 	}
 	snap := takeSnapshot(base)
 	g := c.G
@@ -490,6 +496,9 @@ func checkC13Concurrent(raw json.RawMessage) (ev.Result, error) {
 	res := ev.Result{Classes: []string{"concurrent", fmt.Sprintf("goroutines>=%d", g/4*4)}}
 	if c.Shared {
 		res.Classes = append(res.Classes, "shared-slices")
+		if c.Warm {
+			res.Classes = append(res.Classes, "copies-of-a-value-that-was-compiled-before")
+		}
 	}
 	res.NonTrivial = c.Shared || mergePath(&c.Policy)
 	return res, nil
